@@ -20,7 +20,7 @@ def run(chk):
                 'deletion of non-empty containers); each program runs twice in one process under ASan malloc/free hooks; oracle: no block allocated '
                 'inside the second execution survives the final deletion of everything the harness owns, plus ASan double-free / use-after-free; '
                 'distinct = distinct (program seed, length)')
-    for k in ('create', 'fill', 'hand_in', 'handed_out', 'copy', 'done_reinit', 'early_delete', 'map_set', 'iterator', 'done_reuse_without_reinit', 'split_arrays'):
+    for k in ('create', 'fill', 'hand_in', 'handed_out', 'copy', 'done_reinit', 'early_delete', 'map_set', 'iterator', 'done_reuse_without_reinit', 'split_arrays', 'emptied_then_copied', 'refused_constructions', 'url_empty_component'):
         chk.require(k, 50)
     chk.require('allocations_observed', 10000)
     chk.min_cases = 1000
